@@ -152,6 +152,231 @@ theorem firstEdge_em (e : Env K) (hc : e.o.startCap ≠ .round) (f s : EP K) (o 
       · exact ⟨_, _, _, p2', p1', hX.ext hx3, by simp, by simp, by simp⟩
       · exact ⟨_, _, _, p2', hX.ext hx3, hY.ext hx3, by simp, by simp, by simp⟩
 
+/-! ## round caps: the same two vertices, then `tessellate_round_cap`'s fan -/
+
+/-- side conditions under which a cap is followed: not round, or round with the law `cos² + sin² = 1` and an edge
+direction `v` that normalises to a unit vector -/
+def CapOK (cap : LineCap) (v : P K) : Prop :=
+  cap ≠ .round ∨ ((∀ x : K, Transc.cos x * Transc.cos x + Transc.sin x * Transc.sin x = 1) ∧ (normalize v).sqLen = 1)
+
+theorem lastEdge_split (e : Env K) (p0 p1 : EP K) (isFirst : Bool) (o : Out K) :
+    let adv := p0.advancement + len (p1.position - p0.position)
+    let xp := clipSidePos e.ix e.o.endCap p1.position p0.position p1.halfWidth p1.pos.prev p0.pos.next
+    let xn := clipSidePos e.ix e.o.endCap p1.position p0.position p1.halfWidth p1.neg.prev p0.neg.next
+    let o2 := (o.addVertex (capV p1.src p1.position p1.halfWidth adv .positive xp)).addVertex
+      (capV p1.src p1.position p1.halfWidth adv .negative xn)
+    let p1' : EP K := { p1 with advancement := adv,
+                                pos := { p1.pos with prev := xp, prevVertex := o.nextId },
+                                neg := { p1.neg with prev := xn, prevVertex := o.nextId + 1 } }
+    let o3 := if isFirst then o2 else o2.addTris (addEdgeTriangles p0.ids p1'.ids)
+    lastEdge e p0 p1 isFirst o = (p1', if e.o.endCap == .round then
+      tessellateRoundCap p1.position p1.halfWidth (xp - p1.position) o.nextId (o.nextId + 1) (p1.position - p0.position)
+        e.o.tolerance false (baseVertex p1.src p1.position p1.halfWidth adv) o3 else o3) := by
+  unfold lastEdge
+  rfl
+
+/-- `tessellate_last_edge`, any cap -/
+theorem lastEdge_emG (e : Env K) (p0 p1 : EP K) (isFirst : Bool) (o : Out K)
+    (hc : CapOK e.o.endCap (p1.position - p0.position))
+    (hn : o.nextId = o.verts.length) (hw0 : p1.halfWidth ≠ 0) :
+    Ext o (lastEdge e p0 p1 isFirst o).2
+    ∧ (lastEdge e p0 p1 isFirst o).2.nextId = (lastEdge e p0 p1 isFirst o).2.verts.length
+    ∧ PosAt (lastEdge e p0 p1 isFirst o).2 o.nextId
+        (clipSidePos e.ix e.o.endCap p1.position p0.position p1.halfWidth p1.pos.prev p0.pos.next)
+    ∧ PosAt (lastEdge e p0 p1 isFirst o).2 (o.nextId + 1)
+        (clipSidePos e.ix e.o.endCap p1.position p0.position p1.halfWidth p1.neg.prev p0.neg.next)
+    ∧ (lastEdge e p0 p1 isFirst o).1.pos.prev
+        = clipSidePos e.ix e.o.endCap p1.position p0.position p1.halfWidth p1.pos.prev p0.pos.next
+    ∧ (lastEdge e p0 p1 isFirst o).1.neg.prev
+        = clipSidePos e.ix e.o.endCap p1.position p0.position p1.halfWidth p1.neg.prev p0.neg.next
+    ∧ (lastEdge e p0 p1 isFirst o).1.position = p1.position
+    ∧ (lastEdge e p0 p1 isFirst o).1.pos.single = p1.pos.single
+    ∧ (lastEdge e p0 p1 isFirst o).1.neg.single = p1.neg.single
+    ∧ (lastEdge e p0 p1 isFirst o).1.ids = { p1.ids with posPrev := o.nextId, negPrev := o.nextId + 1 }
+    ∧ ∃ ts, (lastEdge e p0 p1 isFirst o).2.tris = o.tris
+          ++ (if isFirst then [] else addEdgeTriangles p0.ids { p1.ids with posPrev := o.nextId, negPrev := o.nextId + 1 }) ++ ts
+        ∧ ∀ t ∈ ts, TriFan (lastEdge e p0 p1 isFirst o).2
+          [clipSidePos e.ix e.o.endCap p1.position p0.position p1.halfWidth p1.pos.prev p0.pos.next,
+           clipSidePos e.ix e.o.endCap p1.position p0.position p1.halfWidth p1.neg.prev p0.neg.next]
+          p1.position (p1.halfWidth * p1.halfWidth) t := by
+  by_cases hround : e.o.endCap = .round
+  swap
+  · obtain ⟨l1, l2, l3, l4, l5, l6, l7, l8, l9⟩ := lastEdge_em e hround p0 p1 isFirst o hn hw0
+    obtain ⟨m1, m2, m3⟩ := lastEdge_tris e hround p0 p1 isFirst o
+    exact ⟨l1, l2, l3, l4, l5, l6, l7, l8, l9, m3, [], by rw [m1]; simp, by simp⟩
+  · obtain ⟨hcs, hunit⟩ : (∀ x : K, Transc.cos x * Transc.cos x + Transc.sin x * Transc.sin x = 1)
+        ∧ (normalize (p1.position - p0.position)).sqLen = 1 := by
+      rcases hc with h | h
+      · exact absurd hround h
+      · exact h
+    have hu := lastEdge_split e p0 p1 isFirst o
+    simp only [] at hu
+    have hr : (e.o.endCap == Lyon.StrokeQuad.Cap.round) = true := by rw [hround]; rfl
+    rw [hr] at hu
+    simp only [if_true] at hu
+    generalize hxp : clipSidePos e.ix e.o.endCap p1.position p0.position p1.halfWidth p1.pos.prev p0.pos.next = xp at hu ⊢
+    generalize hxn : clipSidePos e.ix e.o.endCap p1.position p0.position p1.halfWidth p1.neg.prev p0.neg.next = xn at hu ⊢
+    rw [hu]
+    generalize hadv : p0.advancement + len (p1.position - p0.position) = adv
+    simp only []
+    set o2 := (o.addVertex (capV p1.src p1.position p1.halfWidth adv .positive xp)).addVertex
+      (capV p1.src p1.position p1.halfWidth adv .negative xn) with ho2
+    have hn1 : (o.addVertex (capV p1.src p1.position p1.halfWidth adv .positive xp)).nextId
+        = (o.addVertex (capV p1.src p1.position p1.halfWidth adv .positive xp)).verts.length := by simp [Out.addVertex, hn]
+    have hx2 : Ext o o2 := (Ext.addVertex _ _).trans (Ext.addVertex _ _)
+    have p1' : PosAt o2 o.nextId (capV p1.src p1.position p1.halfWidth adv .positive xp).position :=
+      (posAt_new o (capV p1.src p1.position p1.halfWidth adv .positive xp) hn).ext
+        (Ext.addVertex _ (capV p1.src p1.position p1.halfWidth adv .negative xn))
+    have p2' : PosAt o2 (o.addVertex (capV p1.src p1.position p1.halfWidth adv .positive xp)).nextId
+        (capV p1.src p1.position p1.halfWidth adv .negative xn).position :=
+      posAt_new (o.addVertex (capV p1.src p1.position p1.halfWidth adv .positive xp))
+        (capV p1.src p1.position p1.halfWidth adv .negative xn) hn1
+    rw [capV_position _ _ _ _ _ _ hw0] at p1' p2'
+    have hid : (o.addVertex (capV p1.src p1.position p1.halfWidth adv .positive xp)).nextId = o.nextId + 1 := rfl
+    rw [hid] at p2'
+    have hn2 : o2.nextId = o2.verts.length := by simp [ho2, Out.addVertex, hn]
+    obtain ⟨o3, ho3⟩ : ∃ o3, o3 = (if isFirst = true then o2 else o2.addTris (addEdgeTriangles p0.ids
+      ({ p1 with advancement := adv, pos := { p1.pos with prev := xp, prevVertex := o.nextId },
+                 neg := { p1.neg with prev := xn, prevVertex := o.nextId + 1 } } : EP K).ids)) := ⟨_, rfl⟩
+    rw [← ho3]
+    have hx23 : Ext o2 o3 := by
+      rw [ho3]; cases isFirst
+      · exact Ext.addTris _ _
+      · exact Ext.refl _
+    have hn3 : o3.nextId = o3.verts.length := by
+      rw [ho3]; cases isFirst
+      · exact hn2
+      · exact hn2
+    have ht3 : o3.tris = o.tris ++ (if isFirst = true then [] else addEdgeTriangles p0.ids
+        { p1.ids with posPrev := o.nextId, negPrev := o.nextId + 1 }) := by
+      rw [ho3]; cases isFirst <;> simp [ho2, Out.addVertex, Out.addTris, EP.ids]
+    obtain ⟨x4, n4, ts, e4, t4⟩ := roundCap_shape hcs [xp, xn] p1.position p1.halfWidth (xp - p1.position)
+      (p1.position - p0.position) o.nextId (o.nextId + 1) e.o.tolerance false
+      (baseVertex p1.src p1.position p1.halfWidth adv) o3 xp xn hunit hn3 (p1'.ext hx23) (Or.inl (by simp))
+      (p2'.ext hx23) (Or.inl (by simp))
+    refine ⟨(hx2.trans hx23).trans x4, n4, (p1'.ext hx23).ext x4, (p2'.ext hx23).ext x4, (by first | trivial | rfl), (by first | trivial | rfl), (by first | trivial | rfl), (by first | trivial | rfl), (by first | trivial | rfl), (by first | trivial | rfl),
+      ts, ?_, t4⟩
+    rw [e4, ht3]
+
+theorem firstEdge_split (e : Env K) (f s : EP K) (o : Out K) :
+    let xp := clipSidePos e.ix e.o.startCap f.position s.position f.halfWidth f.pos.next s.pos.prev
+    let xn := clipSidePos e.ix e.o.startCap f.position s.position f.halfWidth f.neg.next s.neg.prev
+    let o3 := ((o.addVertex (capV f.src f.position f.halfWidth f.advancement .positive xp)).addVertex
+          (capV f.src f.position f.halfWidth f.advancement .negative xn)).addTris
+          (addEdgeTriangles { f.ids with posNext := o.nextId, negNext := o.nextId + 1 } s.ids)
+    firstEdge e f s o = if e.o.startCap == .round then
+      tessellateRoundCap f.position f.halfWidth (f.neg.next - f.position) (o.nextId + 1) o.nextId
+        (f.position - s.position) e.o.tolerance true (baseVertex f.src f.position f.halfWidth f.advancement) o3
+      else o3 := by
+  unfold firstEdge
+  rfl
+
+/-- the part of `tessellate_first_edge` before the cap, at arbitrary vertex positions `xp`, `xn` -/
+theorem firstBase_em (f s : EP K) (o : Out K) (xp xn : P K)
+    (hn : o.nextId = o.verts.length) (hw0 : f.halfWidth ≠ 0)
+    (hf1 : f.foldPos = false) (hf2 : f.foldNeg = false) (hs1 : s.foldPos = false) (hs2 : s.foldNeg = false)
+    (X Y : P K) (hX : PosAt o s.pos.prevVertex X) (hY : PosAt o s.neg.prevVertex Y)
+    (hne : s.pos.prevVertex ≠ s.neg.prevVertex) :
+    ∀ o3, o3 = ((o.addVertex (capV f.src f.position f.halfWidth f.advancement .positive xp)).addVertex
+          (capV f.src f.position f.halfWidth f.advancement .negative xn)).addTris
+          (addEdgeTriangles { f.ids with posNext := o.nextId, negNext := o.nextId + 1 } s.ids) →
+    Ext o o3 ∧ o3.nextId = o3.verts.length ∧ PosAt o3 o.nextId xp ∧ PosAt o3 (o.nextId + 1) xn
+    ∧ EmTri o3 (xn, xp, X) ∧ EmTri o3 (xn, X, Y)
+    ∧ (∀ t ∈ o3.tris, t ∈ o.tris ∨ TriIn o3 [xn, xp, X, Y] t) := by
+  intro o3 ho3
+  subst ho3
+  have hn1 : (o.addVertex (capV f.src f.position f.halfWidth f.advancement .positive xp)).nextId
+      = (o.addVertex (capV f.src f.position f.halfWidth f.advancement .positive xp)).verts.length := by
+    simp [Out.addVertex, hn]
+  have hx2 : Ext o ((o.addVertex (capV f.src f.position f.halfWidth f.advancement .positive xp)).addVertex
+      (capV f.src f.position f.halfWidth f.advancement .negative xn)) := (Ext.addVertex _ _).trans (Ext.addVertex _ _)
+  have hx3 : Ext o (((o.addVertex (capV f.src f.position f.halfWidth f.advancement .positive xp)).addVertex
+      (capV f.src f.position f.halfWidth f.advancement .negative xn)).addTris
+      (addEdgeTriangles { f.ids with posNext := o.nextId, negNext := o.nextId + 1 } s.ids)) :=
+    hx2.trans (Ext.addTris _ _)
+  have p1' := ((posAt_new o (capV f.src f.position f.halfWidth f.advancement .positive xp) hn).ext
+    (Ext.addVertex _ (capV f.src f.position f.halfWidth f.advancement .negative xn))).ext (Ext.addTris _
+    (addEdgeTriangles { f.ids with posNext := o.nextId, negNext := o.nextId + 1 } s.ids))
+  have p2' := (posAt_new (o.addVertex (capV f.src f.position f.halfWidth f.advancement .positive xp))
+    (capV f.src f.position f.halfWidth f.advancement .negative xn) hn1).ext (Ext.addTris _
+    (addEdgeTriangles { f.ids with posNext := o.nextId, negNext := o.nextId + 1 } s.ids))
+  rw [capV_position _ _ _ _ _ _ hw0] at p1' p2'
+  have hid : (o.addVertex (capV f.src f.position f.halfWidth f.advancement .positive xp)).nextId = o.nextId + 1 := rfl
+  rw [hid] at p2'
+  have hXlt := posAt_lt hX
+  have hYlt := posAt_lt hY
+  have he := edgeTris_eq ({ f.ids with posNext := o.nextId, negNext := o.nextId + 1 } : JoinIds) s.ids hf1 hf2 hs1 hs2
+    (by show o.nextId + 1 ≠ s.pos.prevVertex; omega) (by show o.nextId + 1 ≠ o.nextId; omega)
+    (by show o.nextId ≠ s.pos.prevVertex; omega) (by show o.nextId + 1 ≠ s.neg.prevVertex; omega) hne
+  refine ⟨hx3, by simp [Out.addVertex, Out.addTris, hn], p1', p2',
+    ⟨(o.nextId + 1, o.nextId, s.pos.prevVertex), ?_, p2', p1', hX.ext hx3⟩,
+    ⟨(o.nextId + 1, s.pos.prevVertex, s.neg.prevVertex), ?_, p2', hX.ext hx3, hY.ext hx3⟩, ?_⟩
+  · show _ ∈ o.tris ++ _
+    rw [he]; simp [EP.ids]
+  · show _ ∈ o.tris ++ _
+    rw [he]; simp [EP.ids]
+  · intro t ht
+    have ht' : t ∈ o.tris ++ addEdgeTriangles { f.ids with posNext := o.nextId, negNext := o.nextId + 1 } s.ids := ht
+    rw [he] at ht'
+    rcases List.mem_append.mp ht' with h | h
+    · exact Or.inl h
+    · right
+      simp only [List.mem_cons, List.mem_nil_iff, or_false] at h
+      rcases h with rfl | rfl
+      · exact ⟨_, _, _, p2', p1', hX.ext hx3, by simp, by simp, by simp⟩
+      · exact ⟨_, _, _, p2', hX.ext hx3, hY.ext hx3, by simp, by simp, by simp⟩
+
+/-- `tessellate_first_edge`, any cap: the quad towards the second point, then (round cap) the cap's fan -/
+theorem firstEdge_emG (e : Env K) (f s : EP K) (o : Out K) (hc : CapOK e.o.startCap (f.position - s.position))
+    (hn : o.nextId = o.verts.length) (hw0 : f.halfWidth ≠ 0)
+    (hf1 : f.foldPos = false) (hf2 : f.foldNeg = false) (hs1 : s.foldPos = false) (hs2 : s.foldNeg = false)
+    (X Y : P K) (hX : PosAt o s.pos.prevVertex X) (hY : PosAt o s.neg.prevVertex Y)
+    (hne : s.pos.prevVertex ≠ s.neg.prevVertex) :
+    Ext o (firstEdge e f s o)
+    ∧ EmTri (firstEdge e f s o)
+        (clipSidePos e.ix e.o.startCap f.position s.position f.halfWidth f.neg.next s.neg.prev,
+         clipSidePos e.ix e.o.startCap f.position s.position f.halfWidth f.pos.next s.pos.prev, X)
+    ∧ EmTri (firstEdge e f s o)
+        (clipSidePos e.ix e.o.startCap f.position s.position f.halfWidth f.neg.next s.neg.prev, X, Y)
+    ∧ (∀ t ∈ (firstEdge e f s o).tris, t ∈ o.tris ∨ TriIn (firstEdge e f s o)
+        [clipSidePos e.ix e.o.startCap f.position s.position f.halfWidth f.neg.next s.neg.prev,
+         clipSidePos e.ix e.o.startCap f.position s.position f.halfWidth f.pos.next s.pos.prev, X, Y] t
+      ∨ TriFan (firstEdge e f s o)
+        [clipSidePos e.ix e.o.startCap f.position s.position f.halfWidth f.neg.next s.neg.prev,
+         clipSidePos e.ix e.o.startCap f.position s.position f.halfWidth f.pos.next s.pos.prev]
+        f.position (f.halfWidth * f.halfWidth) t) := by
+  by_cases hround : e.o.startCap = .round
+  swap
+  · obtain ⟨x1, x2, x3, x4⟩ := firstEdge_em e hround f s o hn hw0 hf1 hf2 hs1 hs2 X Y hX hY hne
+    refine ⟨x1, x2, x3, fun t ht => ?_⟩
+    rcases x4 t ht with h | h
+    · exact Or.inl h
+    · exact Or.inr (Or.inl h)
+  · obtain ⟨hcs, hunit⟩ : (∀ x : K, Transc.cos x * Transc.cos x + Transc.sin x * Transc.sin x = 1)
+        ∧ (normalize (f.position - s.position)).sqLen = 1 := by
+      rcases hc with h | h
+      · exact absurd hround h
+      · exact h
+    have hu := firstEdge_split e f s o
+    simp only [] at hu
+    have hr : (e.o.startCap == Lyon.StrokeQuad.Cap.round) = true := by rw [hround]; rfl
+    rw [hr] at hu
+    simp only [if_true] at hu
+    generalize hxp : clipSidePos e.ix e.o.startCap f.position s.position f.halfWidth f.pos.next s.pos.prev = xp at hu ⊢
+    generalize hxn : clipSidePos e.ix e.o.startCap f.position s.position f.halfWidth f.neg.next s.neg.prev = xn at hu ⊢
+    rw [hu]
+    obtain ⟨b1, b2, b3, b4, b5, b6, b7⟩ := firstBase_em f s o xp xn hn hw0 hf1 hf2 hs1 hs2 X Y hX hY hne _ rfl
+    obtain ⟨x4, n4, ts, e4, t4⟩ := roundCap_shape hcs [xn, xp] f.position f.halfWidth (f.neg.next - f.position)
+      (f.position - s.position) (o.nextId + 1) o.nextId e.o.tolerance true
+      (baseVertex f.src f.position f.halfWidth f.advancement) _ xn xp hunit b2 b4 (Or.inl (by simp)) b3 (Or.inl (by simp))
+    refine ⟨b1.trans x4, b5.ext x4, b6.ext x4, fun t ht => ?_⟩
+    rw [e4] at ht
+    rcases List.mem_append.mp ht with h | h
+    · rcases b7 t h with h' | h'
+      · exact Or.inl h'
+      · exact Or.inr (Or.inl (h'.ext x4))
+    · exact Or.inr (Or.inr (t4 t h))
+
 /-! ## the corner points of the two caps, as the model computes them -/
 
 /-- `perp(tangent of the last edge) · w/2` -/
@@ -190,13 +415,17 @@ structure Emitted (e : Env K) (pt : Nat → P K) (n : Nat) (o : Out K) : Prop wh
   only : ∀ t ∈ o.tris,
     (∃ i, 1 ≤ i ∧ i + 1 < n ∧ TriIn o (quadSet (jEP e pt i) (jEP e pt (i + 1))) t)
     ∨ (∃ i, 1 ≤ i ∧ i < n ∧ TriIn o (joinSet (jEP e pt i)) t)
+    ∨ (∃ i, 1 ≤ i ∧ i < n ∧ TriFan o (joinSet (jEP e pt i)) (pt i) (e.hwFw * e.hwFw) t)
     ∨ (2 ≤ n ∧ TriIn o [sNext (jEP e pt (n - 1)).neg, sNext (jEP e pt (n - 1)).pos, endPos e pt n, endNeg e pt n] t)
     ∨ (2 ≤ n ∧ TriIn o [startNeg e pt n, startPos e pt n, sPrev (jEP e pt 1).pos, sPrev (jEP e pt 1).neg] t)
     ∨ (n = 1 ∧ TriIn o [startNeg e pt n, startPos e pt n, endPos e pt n, endNeg e pt n] t)
+    ∨ (1 ≤ n ∧ TriFan o [endPos e pt n, endNeg e pt n] (pt n) (e.hwFw * e.hwFw) t)
+    ∨ (1 ≤ n ∧ TriFan o [startNeg e pt n, startPos e pt n] (pt 0) (e.hwFw * e.hwFw) t)
 
 /-- `end_with_caps` after the loop -/
-theorem caps_emitted {e : Env K} (hfw : e.o.varWidth = false) (hs : e.o.startCap ≠ .round) (he : e.o.endCap ≠ .round)
-    (hw0 : e.hwFw ≠ 0) {pt : Nat → P K} {n : Nat} {st : St K} {a b : EP K} (hI : CInv e pt n st a b) :
+theorem caps_emitted {e : Env K} (hfw : e.o.varWidth = false) (hw0 : e.hwFw ≠ 0) {pt : Nat → P K} {n : Nat}
+    (hs : CapOK e.o.startCap (pt 0 - pt 1)) (he : CapOK e.o.endCap (pt n - pt (n - 1)))
+    {st : St K} {a b : EP K} (hI : CInv e pt n st a b) :
     Emitted e pt n (endWithCaps e st).out := by
   have hn1 := hI.k1
   have hc2 := WF.lastTwo_count _ _ hI.t.two
@@ -211,8 +440,11 @@ theorem caps_emitted {e : Env K} (hfw : e.o.varWidth = false) (hs : e.o.startCap
   -- the last point with its side points
   have hbw : (lastSidesFw a b).halfWidth ≠ 0 := by
     show b.halfWidth ≠ 0; rw [hI.t.fresh.hw]; exact hw0
-  obtain ⟨l1, l2, l3, l4, l5, l6, l7, l8, l9⟩ := lastEdge_em e he a (lastSidesFw a b) (st.buf.count == 2) st.out hI.next hbw
-  obtain ⟨m1, m2, m3⟩ := lastEdge_tris e he a (lastSidesFw a b) (st.buf.count == 2) st.out
+  have he' : CapOK e.o.endCap ((lastSidesFw a b).position - a.position) := by
+    rw [show (lastSidesFw a b).position = b.position from rfl, hI.apos, hI.bpos]; exact he
+  obtain ⟨l1, l2, l3, l4, l5, l6, l7, l8, l9, m3, tsE, m1, mE⟩ :=
+    lastEdge_emG e a (lastSidesFw a b) (st.buf.count == 2) st.out he' hI.next hbw
+  have hbhw : (lastSidesFw a b).halfWidth = e.hwFw := hI.t.fresh.hw
   have hanext : a.pos.next = (prevNext e pt n).1 ∧ a.neg.next = (prevNext e pt n).2 := by
     unfold prevNext
     by_cases hk : n = 1
@@ -230,6 +462,7 @@ theorem caps_emitted {e : Env K} (hfw : e.o.varWidth = false) (hs : e.o.startCap
     rw [← hanext.2, ← hI.apos, ← hI.bpos, ← hI.t.fresh.hw]; rfl
   rw [hxp] at l3 l5
   rw [hxn] at l4 l6
+  rw [hxp, hxn, show (lastSidesFw a b).position = b.position from rfl, hI.bpos, hbhw] at mE
   have hpos7 : (lastEdge e a (lastSidesFw a b) (st.buf.count == 2) st.out).1.position = pt n := by
     rw [l7]; exact hI.bpos
   have hfold1 : (lastEdge e a (lastSidesFw a b) (st.buf.count == 2) st.out).1.ids.foldPos = false := by
@@ -238,9 +471,9 @@ theorem caps_emitted {e : Env K} (hfw : e.o.varWidth = false) (hs : e.o.startCap
     rw [m3]; exact hI.t.bfn
   have hidp : (lastEdge e a (lastSidesFw a b) (st.buf.count == 2) st.out).1.ids.posPrev = st.out.nextId := by rw [m3]
   have hidn : (lastEdge e a (lastSidesFw a b) (st.buf.count == 2) st.out).1.ids.negPrev = st.out.nextId + 1 := by rw [m3]
-  generalize hr : lastEdge e a (lastSidesFw a b) (st.buf.count == 2) st.out = r at l1 l2 l3 l4 l5 l6 m1 m2 m3 hpos7 hfold1 hfold2 hidp hidn
+  generalize hr : lastEdge e a (lastSidesFw a b) (st.buf.count == 2) st.out = r at l1 l2 l3 l4 l5 l6 m1 mE m3 hpos7 hfold1 hfold2 hidp hidn
   obtain ⟨p1b, o1⟩ := r
-  simp only at l1 l2 l3 l4 l5 l6 m1 m2 m3 hpos7 hfold1 hfold2 hidp hidn ⊢
+  simp only at l1 l2 l3 l4 l5 l6 m1 mE m3 hpos7 hfold1 hfold2 hidp hidn ⊢
   have hF0 : (fPt e pt).halfWidth ≠ 0 := hw0
   by_cases hk : n = 1
   · -- a single segment
@@ -254,7 +487,9 @@ theorem caps_emitted {e : Env K} (hfw : e.o.varWidth = false) (hs : e.o.startCap
     have hY : PosAt o1 p1b.neg.prevVertex (endNeg e pt n) := by
       have : p1b.neg.prevVertex = st.out.nextId + 1 := hidn
       rw [this]; exact l4
-    obtain ⟨x1, x2, x3, x4⟩ := firstEdge_em e hs (fPt e pt) p1b o1 l2 hF0 rfl rfl hfold1 hfold2 _ _ hX hY
+    have hs' : CapOK e.o.startCap ((fPt e pt).position - p1b.position) := by
+      rw [hpos7, hk]; exact hs
+    obtain ⟨x1, x2, x3, x4⟩ := firstEdge_emG e (fPt e pt) p1b o1 hs' l2 hF0 rfl rfl hfold1 hfold2 _ _ hX hY
       (by show p1b.ids.posPrev ≠ p1b.ids.negPrev; rw [hidp, hidn]; omega)
     have hsp : clipSidePos e.ix e.o.startCap (fPt e pt).position p1b.position (fPt e pt).halfWidth (fPt e pt).pos.next p1b.pos.prev
         = startPos e pt n := by
@@ -264,15 +499,21 @@ theorem caps_emitted {e : Env K} (hfw : e.o.varWidth = false) (hs : e.o.startCap
       unfold startNeg secondPrev; rw [if_pos hk, hpos7, l6, hk]; rfl
     rw [hsp, hsn] at x2 x4
     rw [hsn] at x3
+    have hfw0 : (fPt e pt).halfWidth = e.hwFw := rfl
+    have hfp0 : (fPt e pt).position = pt 0 := rfl
+    rw [hfw0, hfp0] at x4
     refine ⟨fun i h1 h2 => by omega, fun i h1 h2 => by omega, fun h => by omega, fun h => by omega, fun _ => ⟨x2, x3⟩, ?_⟩
     intro t ht
-    rcases x4 t ht with h | h
+    rcases x4 t ht with h | h | h
     · have hc2' : (st.buf.count == 2) = true := by simp [hcnt]
       rw [hc2'] at m1
       simp only [if_true, List.append_nil] at m1
       rw [m1] at h
-      rcases hI.only t h with ⟨i, a1, a2, _⟩ | ⟨i, a1, a2, _⟩ <;> omega
-    · exact Or.inr (Or.inr (Or.inr (Or.inr ⟨hk, h⟩)))
+      rcases List.mem_append.mp h with h | h
+      · rcases hI.only t h with ⟨i, a1, a2, _⟩ | ⟨i, a1, a2, _⟩ | ⟨i, a1, a2, _⟩ <;> omega
+      · exact Or.inr (Or.inr (Or.inr (Or.inr (Or.inr (Or.inr (Or.inl ⟨hn1, (mE t h).ext x1⟩))))))
+    · exact Or.inr (Or.inr (Or.inr (Or.inr (Or.inr (Or.inl ⟨hk, h⟩)))))
+    · exact Or.inr (Or.inr (Or.inr (Or.inr (Or.inr (Or.inr (Or.inr ⟨hn1, h⟩))))))
   · -- at least one join
     have hk2 : 2 ≤ n := by omega
     have hcnt : st.buf.count = 3 := by rw [hI.cnt, if_neg hk]
@@ -303,7 +544,9 @@ theorem caps_emitted {e : Env K} (hfw : e.o.varWidth = false) (hs : e.o.startCap
       · show PosAt o1 p1b.ids.negPrev _; rw [hidn]; exact l4
     -- the first edge
     obtain ⟨s1, s2, sg, s4, s5⟩ := sf
-    obtain ⟨x1, x2, x3, x4⟩ := firstEdge_em e hs (fPt e pt) f1 o1 l2 hF0 rfl rfl s1 s2 _ _ (pf1.ext l1) (pf2.ext l1) s5
+    have hs' : CapOK e.o.startCap ((fPt e pt).position - f1.position) := by
+      rw [gp]; exact hs
+    obtain ⟨x1, x2, x3, x4⟩ := firstEdge_emG e (fPt e pt) f1 o1 hs' l2 hF0 rfl rfl s1 s2 _ _ (pf1.ext l1) (pf2.ext l1) s5
     have hsp : clipSidePos e.ix e.o.startCap (fPt e pt).position f1.position (fPt e pt).halfWidth (fPt e pt).pos.next f1.pos.prev
         = startPos e pt n := by
       unfold startPos secondPrev; rw [if_neg hk, gp, (geo_pos gf).1]; rfl
@@ -312,24 +555,32 @@ theorem caps_emitted {e : Env K} (hfw : e.o.varWidth = false) (hs : e.o.startCap
       unfold startNeg secondPrev; rw [if_neg hk, gp, (geo_neg gf).1]; rfl
     rw [hsp, hsn] at x2 x4
     rw [hsn] at x3
+    have hfw0 : (fPt e pt).halfWidth = e.hwFw := rfl
+    have hfp0 : (fPt e pt).position = pt 0 := rfl
+    rw [hfw0, hfp0] at x4
     have hx := l1.trans x1
     refine ⟨fun i h1 h2 => (hI.quads i h1 h2).ext hx, fun i h1 h2 => (hI.joins i h1 h2).ext hx,
       fun _ => ⟨hlast.1.ext x1, hlast.2.ext x1⟩, fun _ => ⟨x2, x3⟩, fun h => absurd h hk, ?_⟩
     intro t ht
-    rcases x4 t ht with h | h
+    rcases x4 t ht with h | h | h
     · rw [m1, hel] at h
       rcases List.mem_append.mp h with h | h
-      · rcases hI.only t h with ⟨i, a1, a2, a3⟩ | ⟨i, a1, a2, a3⟩
+      swap
+      · exact Or.inr (Or.inr (Or.inr (Or.inr (Or.inr (Or.inr (Or.inl ⟨hn1, (mE t h).ext x1⟩))))))
+      rcases List.mem_append.mp h with h | h
+      · rcases hI.only t h with ⟨i, a1, a2, a3⟩ | ⟨i, a1, a2, a3⟩ | ⟨i, a1, a2, a3⟩
         · exact Or.inl ⟨i, a1, a2, a3.ext hx⟩
         · exact Or.inr (Or.inl ⟨i, a1, a2, a3.ext hx⟩)
-      · refine Or.inr (Or.inr (Or.inl ⟨hk2, ?_⟩))
+        · exact Or.inr (Or.inr (Or.inl ⟨i, a1, a2, a3.ext hx⟩))
+      · refine Or.inr (Or.inr (Or.inr (Or.inl ⟨hk2, ?_⟩)))
         have hp3 : PosAt o1 p1b.ids.posPrev (endPos e pt n) := by rw [hidp]; exact l3
         have hp4 : PosAt o1 p1b.ids.negPrev (endNeg e pt n) := by rw [hidn]; exact l4
         simp only [List.mem_cons, List.mem_nil_iff, or_false] at h
         rcases h with rfl | rfl
         · exact ⟨_, _, _, (pa1.ext l1).ext x1, (pa2.ext l1).ext x1, hp3.ext x1, by simp, by simp, by simp⟩
         · exact ⟨_, _, _, (pa1.ext l1).ext x1, hp3.ext x1, hp4.ext x1, by simp, by simp, by simp⟩
-    · exact Or.inr (Or.inr (Or.inr (Or.inl ⟨hk2, h⟩)))
+    · exact Or.inr (Or.inr (Or.inr (Or.inr (Or.inl ⟨hk2, h⟩))))
+    · exact Or.inr (Or.inr (Or.inr (Or.inr (Or.inr (Or.inr (Or.inr ⟨hn1, h⟩))))))
 
 end
 
@@ -343,9 +594,10 @@ def polyEvs (pt : Nat → P K) (n : Nat) : List (IdEv K) :=
 
 /-- **emission shape of the complete model on an open polyline** (fixed width, Miter / MiterClip / Bevel
 join, butt / square caps, no merged points, no folding join): see `Emitted` -/
-theorem run_emitted (e : Env K) (store : Nat → List K) (hfw : e.o.varWidth = false)
-    (hj : e.o.join ≠ .round) (hs : e.o.startCap ≠ .round) (he : e.o.endCap ≠ .round) (hw0 : e.hwFw ≠ 0)
+theorem run_emittedG (e : Env K) (store : Nat → List K) (hfw : e.o.varWidth = false)
+    (hj : RoundOK e) (hw0 : e.hwFw ≠ 0)
     (pt : Nat → P K) (n : Nat) (hn : 1 ≤ n)
+    (hs : CapOK e.o.startCap (pt 0 - pt 1)) (he : CapOK e.o.endCap (pt n - pt (n - 1)))
     (hfar : ∀ i, i < n → pointsAreTooClose e.thr (pt i) (pt (i + 1)) = false)
     (hnf : ∀ i, 1 ≤ i → i < n → noFoldAt e (pt (i - 1)) (pt i) (pt (i + 1))) :
     Emitted e pt n (runEvents e store (polyEvs pt n)).st.out := by
@@ -354,8 +606,7 @@ theorem run_emitted (e : Env K) (store : Nat → List K) (hfw : e.o.varWidth = f
   unfold polyEvs
   rw [hrun]
   have hI1 : CInv e pt 1 st2 (fPt e pt) (secondPt e 0 1 (pt 0) (pt 1)) := by
-    refine ⟨⟨hwf2, hab, ⟨rfl, rfl, rfl, rfl, rfl⟩, rfl, rfl, fun _ => ⟨rfl, rfl⟩, fun h => by omega,
-      by rw [hout, hc2]; rfl⟩, by rw [hout]; rfl, rfl, rfl, le_refl _, by simp [hc2], fun _ => rfl,
+    refine ⟨⟨hwf2, hab, ⟨rfl, rfl, rfl, rfl, rfl⟩, rfl, rfl, fun _ => ⟨rfl, rfl⟩, fun h => by omega⟩, by rw [hout]; rfl, rfl, rfl, le_refl _, by simp [hc2], fun _ => rfl,
       fun h => by omega, fun h => by omega, fun i h1 h2 => by omega, fun i h1 h2 => by omega,
       fun t ht => by rw [hout] at ht; simp [Out.empty] at ht⟩
   obtain ⟨a', b', hI⟩ := feed_cinv hj hw0 (n - 1) 1 st2 _ _ hI1 (fun i h1 h2 => hfar i (by omega))
@@ -364,9 +615,18 @@ theorem run_emitted (e : Env K) (store : Nat → List K) (hfw : e.o.varWidth = f
   rw [hn'] at hI
   set st' := (restPts pt (1 + 1) (n - 1)).foldl (fun s q => (fwStep e s (linePt e q)).1) st2 with hst'
   have hI' : CInv e pt n { st' with mayNeedEmptyCap := st'.mayNeedEmptyCap || (false && st'.buf.count == 1) } a' b' :=
-    ⟨⟨hI.t.wf, hI.t.two, hI.t.fresh, hI.t.bfp, hI.t.bfn, hI.t.first, hI.t.full, hI.t.euler⟩, hI.next, hI.apos, hI.bpos,
+    ⟨⟨hI.t.wf, hI.t.two, hI.t.fresh, hI.t.bfp, hI.t.bfn, hI.t.first, hI.t.full⟩, hI.next, hI.apos, hI.bpos,
       hI.k1, hI.cnt, hI.first1, hI.first2, hI.ageo, hI.quads, hI.joins, hI.only⟩
-  exact caps_emitted hfw hs he hw0 hI'
+  exact caps_emitted hfw hw0 hs he hI'
+
+/-- … butt / square caps -/
+theorem run_emitted (e : Env K) (store : Nat → List K) (hfw : e.o.varWidth = false)
+    (hj : RoundOK e) (hs : e.o.startCap ≠ .round) (he : e.o.endCap ≠ .round) (hw0 : e.hwFw ≠ 0)
+    (pt : Nat → P K) (n : Nat) (hn : 1 ≤ n)
+    (hfar : ∀ i, i < n → pointsAreTooClose e.thr (pt i) (pt (i + 1)) = false)
+    (hnf : ∀ i, 1 ≤ i → i < n → noFoldAt e (pt (i - 1)) (pt i) (pt (i + 1))) :
+    Emitted e pt n (runEvents e store (polyEvs pt n)).st.out :=
+  run_emittedG e store hfw hj hw0 pt n hn (Or.inl hs) (Or.inl he) hfar hnf
 
 end Run
 
